@@ -131,6 +131,10 @@ ROUND3_NOTES = {
 }
 
 
+# round 4 (G/H): same protocol as round 3 (frozen copy at bcd381e); notes filled in after the first trial
+ROUND4_NOTES = {}
+
+
 def needs(notes):
     paras = re.split(r"\n(?=- |\n|\*\*)", notes)
     for p in paras:
@@ -153,12 +157,13 @@ def main():
             f = line.rstrip("\n").split("\t")
             if len(f) >= 5:
                 results[f[0]] = {"tier": f[1], "exit": int(f[2]), "violations": int(f[3]), "first_signatures": f[4]}
-    if os.path.exists(ROUND3):
-        for line in open(ROUND3):
-            f = line.rstrip("\n").split("\t")
-            if len(f) >= 4 and re.fullmatch(r"C\d+-[EF]", f[0]):
-                caught = f[2] == "rc=1" and f[3] != "violations=0"
-                FIRST[f[0]] = ("caught" if caught else "missed", ROUND3_NOTES.get(f[0]))
+    for logname, letters, notes in ((ROUND3, "EF", ROUND3_NOTES), (os.path.join(ROOT, "ROUND4_FIRST_TRIALS.log"), "GH", ROUND4_NOTES)):
+        if os.path.exists(logname):
+            for line in open(logname):
+                f = line.rstrip("\n").split("\t")
+                if len(f) >= 4 and re.fullmatch(r"C\d+-[%s]" % letters, f[0]):
+                    caught = f[2] == "rc=1" and f[3] != "violations=0"
+                    FIRST[f[0]] = ("caught" if caught else "missed", notes.get(f[0]))
     rows = []
     for sid in sorted(FIRST):
         if not os.path.isdir(os.path.join(ROOT, sid)):
@@ -179,7 +184,7 @@ def main():
             "needs_to_manifest": needs(notes),
             "author": "a fresh sub-agent that was given only the text of the property (from round 2 on also one-line titles of the "
                       "changes already stored for it, to avoid repeats) and its own scratch worktree of /repo (nothing from /verif); "
-                      "see seeded/BRIEF.txt, BRIEF2.txt, BRIEF3.txt",
+                      "see seeded/BRIEF.txt, BRIEF2.txt, BRIEF3.txt, BRIEF4.txt",
             "confirmed_by_me": {
                 "how": "tools/confirm_seeded.sh in the scratch worktree (since removed): apply patch, cargo test --workspace "
                        "--no-fail-fast --offline, cargo build, demo.sh; git checkout, cargo build, demo.sh",
@@ -215,7 +220,7 @@ def main():
     text = open(dp, encoding="utf-8").read()
     begin, end = "<!-- SEEDED-TABLE-BEGIN (generated by tools/mkseeded_meta.py) -->", "<!-- SEEDED-TABLE-END -->"
     summary = []
-    for rnd, letters in (("1", "AB"), ("2", "CD"), ("3", "EF")):
+    for rnd, letters in (("1", "AB"), ("2", "CD"), ("3", "EF"), ("4", "GH")):
         rs = [m for m in rows if m["id"][-1] in letters]
         if rs:
             summary.append("round %s (%s): %d changes, first trial caught %d, caught now %d" % (
